@@ -46,7 +46,14 @@ PROP = dict(
              "Initialize and the oracles (signatures reinit-last-wins, reinit-source-lost, reinit-add-discards, reinit-phantom-key, and "
              "config-error / config-panic) are evaluated on the loader list configured at that moment; about 40% of the histories add a "
              "file / priority / ordered loader after an Initialize that loaded a none-ordered one (tag late-front); SetConfig with a file "
-             "path given before (a,b,a / a,SetConfigLoader,a / a,SetConfigure,a) is in the corpus",
+             "path given before (a,b,a / a,SetConfigLoader,a / a,SetConfigure,a) is in the corpus; "
+             "about one generated App line in three (tag cmdline; ~620 in quick, ~290 with the command line still in the effective list, ~180 with tag cmdline-shared-plain) and 16 corpus lines "
+             "run in a process whose command line holds --app.config arguments (scenario prefix `OA`: os.Args is replaced for the duration "
+             "of the scenario by prog, half of the arguments, a positional argument, the other half, an unrelated flag), so the DEFAULT "
+             "ArgsLoader(os.Args) that app.NewApp installs is a source with content (loader #0, marker m0): 1-4 arguments on leaf paths "
+             "that loaders of the line supply too, each with its own value, sometimes a small random tree; it is the first loader added, so "
+             "the same oracles demand that every raw / args loader added by an option wins over it on a shared key, that it wins over "
+             "files, and that a set-type option removes it",
         trusted_base=COMMON_TB + ["spf13/viper v1.19.0 merge, key lower-casing, Get and AllSettings as modelled in Ioc.Config (validated by the correspondence)",
                                   "yaml.v3 parsing of the generated documents; go-kid/properties + strconv2 for ArgsLoader values",
                                   "Go's sort.Slice is an insertion sort (stable) below 13 elements, as modelled by sortByKey; on 13 and more elements it returns an "
@@ -58,7 +65,9 @@ PROP = dict(
                      "within one ArgsLoader a path never extends an earlier scalar (go-kid/properties panics; modelled as `panic`, one corpus case)",
                      "a priority or ordered class with 13 or more loaders holds no two equal Order() values (sort.Slice stays an insertion sort up to 12; "
                      "beyond that ties are placed by pdqsort, which is not modelled and on which the property is silent); the none-ordered class "
-                     "may have any size; the harness process is started without --app.config arguments, so the default ArgsLoader is empty",
+                     "may have any size; the harness process itself is started without --app.config arguments (checked), so the default ArgsLoader is empty "
+                     "unless the scenario line gives a command line (`OA`), which the harness installs in os.Args before app.NewApp() and removes after the "
+                     "last Initialize of the line (the config sub-harness runs its cases one after the other)",
                      "null is a value: a later null hides an earlier value (viper.Get returns nil), counted as 'last wins'",
                      "histories: the binder has no reset, so a key that only a source removed by a later SetLoaders / SetConfigLoader supplied stays "
                      "visible after the next Initialize (modelled; the property speaks about configured sources, the oracle demands nothing "
